@@ -767,4 +767,14 @@ def geometry_role_free(repo: Repo, prop: str = PROP, rule: str = "C06.GEOMETRY-R
 
 geometry_role_free.rule_id = "C06.GEOMETRY-ROLE-FREE"
 
-RULES = [sections, side_tables, vertex_ownership, assemble_walk, patch_state, delete_skip, geometry_label, precision, user_state_survives, grading_form, geometry_redeclared, vertex_tolerance, grade_idempotent, live_lengths, axis_table, corner_patches, empty_patch, side_addressing, no_class_state, geometry_role_free]
+def labels_private(repo: Repo) -> RuleRun:
+    """'... exactly the ... projected sides ... the user declared': what one operation declares does not leak into another operation's points. Same rule as C05.LABELS-PRIVATE."""
+    from . import c05
+
+    return c05.labels_private(repo, PROP, "C06.LABELS-PRIVATE")
+
+
+labels_private.rule_id = "C06.LABELS-PRIVATE"
+
+
+RULES = [sections, side_tables, vertex_ownership, assemble_walk, patch_state, delete_skip, geometry_label, precision, user_state_survives, grading_form, geometry_redeclared, vertex_tolerance, grade_idempotent, live_lengths, axis_table, corner_patches, empty_patch, side_addressing, no_class_state, geometry_role_free, labels_private]
